@@ -74,7 +74,7 @@ class Sess:
         from mc.core import vloop as V
 
         w = self.w
-        src, sink = V.LineSource(), io.StringIO()
+        src, sink = V.LineSource(), FailingSink()
         in_ctl, out_ctl = V.CtlExecutor(), V.CtlExecutor()
         h = ConnectionHandler(w.router, V.aio_text(src, w.loop, in_ctl), V.aio_text(sink, w.loop, out_ctl))
         task = w.loop.create_task(h.handle())
@@ -91,7 +91,7 @@ class Sess:
             prog = False
             t = self.tty
             if t is not None:
-                while len(t["out_ctl"]):
+                while len(t["out_ctl"]) and not t.get("hold_out"):
                     t["out_ctl"].run(0)
                     prog = True
                 if len(t["in_ctl"]) and t["src"].available():
@@ -189,10 +189,21 @@ class Sess:
         self.w.close()
 
 
+class FailingSink(io.StringIO):
+    """stdout stand-in whose writes can be made to fail (the peer hung up: EPIPE)"""
+
+    fail = None
+
+    def write(self, data):
+        if self.fail is not None:
+            raise self.fail
+        return super().write(data)
+
+
 SCRIPT = ["connect", "handshake", "enableBLOB", "client-write", "device-traffic"]
 
 
-def run(transport, fault, victim, step, paused=False, second=None, paused_survivor=None):
+def run(transport, fault, victim, step, paused=False, second=None, paused_survivor=None, stalled=None):
     """second = (fault2, victim2, step2): another TCP connection ends too; paused: the victim's flow control is
     paused from the start, so device traffic for it is queued behind a pending drain when it ends"""
     from indi.device.values import BLOB
@@ -217,6 +228,10 @@ def run(transport, fault, victim, step, paused=False, second=None, paused_surviv
         injected2 = [False]
         if paused and vconn["kind"] == "tcp":
             vconn["link"].server_ep.pause()
+        if stalled and vconn["kind"] == "tty":
+            # the TTY channel's output is stalled for the whole script (a full pipe): writes to it stay in flight while
+            # its input ends; "fail": they then fail (EPIPE) instead of completing
+            vconn["hold_out"] = True
         sconn = None
         if paused_survivor is not None:
             # a slow survivor: its flow control is paused for the whole script, so device traffic queues up behind a
@@ -226,14 +241,25 @@ def run(transport, fault, victim, step, paused=False, second=None, paused_surviv
                 return [], False
             sconn["link"].server_ep.pause()
 
+        def already_closed(c):
+            # a connection the server has closed (or that reads EOF) although nothing was injected on it yet: some
+            # other connection's end took it down.  Reported; its own fault is then not applicable any more.
+            if c["kind"] != "tcp":
+                return False
+            ep = c["link"].server_ep
+            if ep.transport.closing or ep.reader.at_eof() or c["link"].server_task.done():
+                fails.append(("survivor-closed", d0, "step %d: connection %s was closed by the server before anything had happened to it" % (step, c["idx"])))
+                return True
+            return False
+
         def maybe(k):
             nonlocal injected
             did = False
             if k == step and not injected:
-                injected = s.inject(vconn, fault) is not False
+                injected = True if already_closed(vconn) else (s.inject(vconn, fault) is not False)
                 did = True
             if second and k == second[2] and not injected2[0]:
-                injected2[0] = s.inject(vconn2, second[0]) is not False
+                injected2[0] = True if already_closed(vconn2) else (s.inject(vconn2, second[0]) is not False)
                 did = True
             return did
 
@@ -261,6 +287,15 @@ def run(transport, fault, victim, step, paused=False, second=None, paused_surviv
         if vconn2:
             s.finish_fault(vconn2)
         victims = [vconn] + ([vconn2] if vconn2 else [])
+        if stalled and vconn["kind"] == "tty":
+            # judged while the output is still in flight: the input has ended, the router must already have forgotten it
+            for f in check_victim(s, vconn, w.router, server_tcp, {id(vconn): len(s.output(vconn))}, d0, step):
+                fails.append((f[0], f[1] + ",output-in-flight", f[2]))
+            if stalled == "fail":
+                vconn["sink"].fail = BrokenPipeError("peer hung up")
+            vconn["hold_out"] = False
+            s.pump()
+            w.loop.errors.clear()  # a failed write of the ended channel is not judged here
         if sconn is not None:
             sconn["link"].server_ep.resume()
             s.pump()
@@ -310,9 +345,21 @@ def run(transport, fault, victim, step, paused=False, second=None, paused_surviv
                 fails.append(("survivor-traffic", d0 + ",policy=%s" % pol, "step %d: survivor %s (policy %s) text=%s blob=%s after the fault" % (step, c["idx"], pol, has_text, has_blob)))
             if rest.strip():
                 fails.append(("survivor-garbled", d0, "step %d: survivor %s output has stray characters %r" % (step, c["idx"], rest[:60])))
+        # requests of the surviving connections are still served (whatever the ended connection left half-read)
+        for c in conns:
+            if c in victims or (c["kind"] == "tcp" and c["link"].server_ep.transport.closing):
+                continue
+            if c["policy"] == "Only":
+                continue  # it asked for BLOBs only: definitions are not sent to it
+            mark = len(s.output(c))
+            s.send(c, '<getProperties version="1.7" device="DEV0" name="T"/>')
+            if "<defTextVector" not in s.output(c)[mark:]:
+                fails.append(("survivor-request-not-served", d0, "step %d: the getProperties of surviving connection %s after the fault was not answered" % (step, c["idx"])))
         # a peer that reconnects starts from default settings
         n = s.connect_tcp(9)
         s.send(n, '<getProperties version="1.7"/>')
+        if "<def" not in s.output(n):
+            fails.append(("reconnect-not-served", d0 + ",handshake", "step %d: the handshake of a new connection was not answered" % step))
         mark = len(s.output(n))
         dev.g.t.a.value = "AFTER2-TEXT"
         dev.g.b.a.value = BLOB(b"AFTER2-BLOB", ".z")
@@ -377,6 +424,9 @@ def run_shard(shard):
             cases.append(dict(victim=victim, step=step))
             if transport == "tcp":
                 cases.append(dict(victim=victim, step=step, paused=True))
+            if transport == "tty":
+                cases.append(dict(victim=victim, step=step, stalled="hold"))
+                cases.append(dict(victim=victim, step=step, stalled="fail"))
             for ps in (0, 1, 2):
                 if transport != "tcp" or ps != victim:
                     cases.append(dict(victim=victim, step=step, paused_survivor=ps))
@@ -393,7 +443,7 @@ def run_shard(shard):
         res["evaluations"] += 1
         res["injected"] += 1 if injected else 0
         for clause, disc, what in fails:
-            extra = (",paused" if c.get("paused") else "") + (",second=%s" % c["second"][0] if c.get("second") else "") + (",slow-survivor" if c.get("paused_survivor") is not None else "")
+            extra = (",paused" if c.get("paused") else "") + (",second=%s" % c["second"][0] if c.get("second") else "") + (",slow-survivor" if c.get("paused_survivor") is not None else "") + (",stalled-output" if c.get("stalled") else "")
             key = (clause, disc + extra)
             if key in sig:
                 sig[key]["count"] += 1
@@ -420,6 +470,6 @@ def finish(tier, seed, m):
 
 def replay(rep):
     second = tuple(rep["second"]) if rep.get("second") else None
-    fails, inj = run(rep["transport"], rep["fault"], rep["victim"], rep["step"], rep.get("paused", False), second, rep.get("paused_survivor"))
-    extra = (",paused" if rep.get("paused") else "") + (",second=%s" % second[0] if second else "") + (",slow-survivor" if rep.get("paused_survivor") is not None else "")
+    fails, inj = run(rep["transport"], rep["fault"], rep["victim"], rep["step"], rep.get("paused", False), second, rep.get("paused_survivor"), rep.get("stalled"))
+    extra = (",paused" if rep.get("paused") else "") + (",second=%s" % second[0] if second else "") + (",slow-survivor" if rep.get("paused_survivor") is not None else "") + (",stalled-output" if rep.get("stalled") else "")
     return [{"clause": c, "disc": d + extra, "what": w} for c, d, w in fails]
